@@ -1,13 +1,87 @@
 /-
-  Driver.OpsC03 — protocol operations for property C03 (filled in by the C03 work package).
-  Contract: `handleC03 op` returns the parser for operation `op` or `none` if `op` is not one of
-  this property's operations.
+  Driver.OpsC03 — protocol operations for property C03 (no false PASS).
+
+  c03eq <rel> <abs> mesh mesh
+        ->  hyp=<0|1> model=<T|F|E> spec=<T|F|->       `mesh_equal` with both tolerances given
+  c03ladder <disableReordering> <disableDimMatching> <k> { any fields  any fields }^k
+        ->  hyp=<0|1> model=<domainEq><suite> rung=<index of the rung that produced the result> err=<0|1>
+        The k rungs are the (source, reference) pairs that the implementation's own public
+        transformations produce along the retry ladder (original, [extended], sorted points, sorted
+        cells); the model runs the ladder's control flow (`ladder`) over this chain and evaluates
+        the domain check (`Fc.C16.equals`) and the field comparisons (`fieldsPass`) on each visited rung.
+  fields := <npf> { <name> array } <ncf> { <name> <type> array }
 -/
-import Driver.Proto
-namespace Fc.Drv
+import Driver.OpsC16
+import FcModel.Spec.C03
+namespace Fc.Drv.C03
+open Fc Fc.Drv Fc.C03 Fc.C16 Fc.Drv.C16
+
+def opC03Eq : P String := do
+  let rel ← pNat
+  let abs ← pNat
+  let a ← pMesh
+  let b ← pMesh
+  let hyp := (wfEq a) && (wfEq b)
+  let m := meshEqualWith rel abs a b
+  let spec := showVerdict (.ok (meshEqualSpec rel abs a b))
+  pure s!"hyp={showBool hyp} model={showVerdict m} spec={if hyp then spec else "-"}"
+
+/-- one side of one rung -/
+structure Side where
+  dom : AnyMesh
+  fields : MeshFields
+
+def pSide : P Side := do
+  let a ← pAnyMesh
+  let pfs ← pList (do let n ← tok; let x ← pArr; pure (PointField.mk n x))
+  let cfs ← pList (do let n ← tok; let ct ← tok; let x ← pArr; pure (CellField.mk n ct x))
+  match a.view with
+  | some v => pure ⟨a, ⟨v.mesh, pfs, cfs⟩⟩
+  | none => failure
+
+/-- a chain = the remaining precomputed states of one side, current state first, with its rung index -/
+abbrev Chain := List (Nat × Side)
+
+def compareSides (s r : Chain) : Bool × Bool :=
+  match s, r with
+  | (_, x) :: _, (_, y) :: _ =>
+    let dom := equals x.dom y.dom == .ok true
+    (dom, dom && fieldsPass x.fields y.fields)
+  | _, _ => (false, false)
+
+def chainOps : LadderOps Chain where
+  spaceDim := fun c => match c with
+    | (_, x) :: _ => x.fields.mesh.dim
+    | [] => 0
+  extend := fun _ c => c.tail
+  permute := fun c => c.tail
+  sortCells := fun c => c.tail
+  bothStructured := fun _ _ => false
+  compare := compareSides
+
+def opC03Ladder : P String := do
+  let dr ← pBool
+  let dd ← pBool
+  let k ← pNat
+  let rungs ← pMany (do let s ← pSide; let r ← pSide; pure (s, r)) k
+  let idx := List.range k
+  let cs : Chain := List.zip idx (rungs.map (·.1))
+  let cr : Chain := List.zip idx (rungs.map (·.2))
+  let res := ladder chainOps ⟨dr, dd⟩ cs cr
+  let err := rungs.any fun p => equals p.1.dom p.2.dom == .err
+  let hyp := rungs.all fun p => anyOk p.1.dom && anyOk p.2.dom
+  -- the ladder must never run off the precomputed chain
+  let rung := match res.src with
+    | (i, _) :: _ => toString i
+    | [] => "off"
+  pure s!"hyp={showBool (hyp && rung != "off")} model={showBool res.domainEq}{showBool res.suite} rung={rung} err={showBool err}"
 
 def handleC03 (op : String) : Option (P String) :=
   match op with
+  | "c03eq" => some opC03Eq
+  | "c03ladder" => some opC03Ladder
   | _ => none
 
-end Fc.Drv
+end Fc.Drv.C03
+
+def Fc.Drv.handleC03 := Fc.Drv.C03.handleC03
